@@ -24,7 +24,29 @@ var (
 	Int31Hook func(r *Rand) int32
 )
 
-func NewSource(seed int64) Source { return rand.NewSource(seed) }
+// Small, when set by the harness, makes NewSource hand out an 8-byte generator instead of
+// math/rand's 4.9 KiB one: every pooled connection owns two generators, and the pool's goroutines
+// (with everything they reference) stay parked for ever after each of the harness's executions.
+var Small bool
+
+type smallSource struct{ s uint64 }
+
+func (x *smallSource) Seed(seed int64) { x.s = uint64(seed) }
+func (x *smallSource) Uint64() uint64 {
+	x.s += 0x9e3779b97f4a7c15
+	z := x.s
+	z = (z ^ (z >> 30)) * 0xbf58476d1ce4e5b9
+	z = (z ^ (z >> 27)) * 0x94d049bb133111eb
+	return z ^ (z >> 31)
+}
+func (x *smallSource) Int63() int64 { return int64(x.Uint64() >> 1) }
+
+func NewSource(seed int64) Source {
+	if Small {
+		return &smallSource{s: uint64(seed)}
+	}
+	return rand.NewSource(seed)
+}
 
 func New(src Source) *Rand {
 	return &Rand{r: rand.New(src), ID: int(atomic.AddInt64(&nextID, 1))}
